@@ -75,6 +75,9 @@ def cases(tier):
             out.append({"kind": "monotone", "k1": k1, "k2": k2, "_weight": 4})
             out.append({"kind": "broadcast", "k1": k1, "k2": k2, "_weight": 4})
         out.append({"kind": "miner", "k1": k1, "_weight": 2})
+        # Miner variants of a curve given for another failure probability (seed C08-5: the variant lost the key)
+        for nat in ((0.1,) if q else (0.1, 0.9, 0.025)):
+            out.append({"kind": "miner", "k1": k1, "native": nat, "_weight": 2})
         for (p1, p2) in (((0.1, 0.9), (0.5, 0.025)) if q else itertools.permutations(PROBS, 2)):
             out.append({"kind": "scatter", "k1": k1, "k2": 2 * k1 - 1, "p1": p1, "p2": p2, "_weight": 3})
     out.append({"kind": "std"})
@@ -293,7 +296,8 @@ def run(ctx, case):
         return None
 
     if kind == "miner":
-        wc_s, d = _curve(ctx, k1, k1 + 2)
+        native = case.get("native", 0.5)
+        wc_s, d = _curve(ctx, k1, k1 + 2, native=native)
         before = dict(wc_s)
         acc = wc_s.woehler
         variants = {"original": (acc.miner_original(), math.inf), "elementary": (acc.miner_elementary(), k1),
@@ -304,6 +308,14 @@ def run(ctx, case):
             ctx.claim(float(pdv.k_1) == float(k1), "miner_variants", name)
             for key in ("SD", "ND", "TN", "TS"):
                 ctx.claim(_close_log(ctx, pdv[key], d[key], 1e-12), "miner_variants", (name, key))
+            ctx.claim(float(pdv.get("failure_probability", 0.5)) == float(native), "miner_variants", (name, "failure_probability"))
+            ctx.claim(float(v.failure_probability) == float(native), "miner_variants", (name, "failure_probability attribute"))
+            # "only change k_2": above the knee the variant is the curve it was made from, at every probability
+            Sv = _bounded(ctx, "Sv_" + name)
+            for p in (0.5, 0.9):
+                tr = acc.transform_to_failure_probability(p).to_pandas()
+                if bool(Sv > tr.SD):
+                    ctx.claim(_close_log(ctx, _scalar(v.cycles(Sv, p)), _scalar(acc.cycles(Sv, p))), "miner_variants", (name, "cycles above the knee", p))
         ctx.claim(float(wc_s.k_2) == float(k1 + 2) and set(wc_s.index) == set(before), "original_untouched", dict(wc_s))
         ctx.claim(float(acc.k_2) == float(k1 + 2), "original_untouched")
         return None
